@@ -30,6 +30,7 @@ import (
 	"fmt"
 	"os"
 	"sort"
+	"strings"
 	"sync"
 	"testing"
 	"time"
@@ -489,7 +490,7 @@ func trExec(raw json.RawMessage) interface{} {
 		return trObs{Steps: []trStep{}, Err: "run loops stuck in the previous cases"}
 	}
 	o := trExec1(raw)
-	if ob, ok := o.(trObs); ok && ob.Err != "" {
+	if ob, ok := o.(trObs); ok && strings.Contains(ob.Err, "run loop") {
 		trStuck++
 	} else {
 		trStuck = 0
@@ -501,6 +502,15 @@ func trExec1(raw json.RawMessage) interface{} {
 	var in trInput
 	if err := json.Unmarshal(raw, &in); err != nil {
 		return trObs{Err: "bad-input"}
+	}
+	// the kind table is the harness's: an input whose table was altered (shrinking) is rejected
+	if len(in.Cats) != len(trKinds) {
+		return trObs{Err: "bad-input"}
+	}
+	for k, e := range trKinds {
+		if in.Cats[k] != e.cat {
+			return trObs{Err: "bad-input"}
+		}
 	}
 	pm := make(map[string]bool)
 	for _, p := range in.Panics {
